@@ -502,6 +502,9 @@ type SeriesSketchesResponse struct {
 
 func (r *SeriesSketchesResponse) MarshalBinary() ([]byte, error) {
 	var pb internal.SeriesSketchesResponse
+	// Sketch and TSSketch are required fields: a response without sketches (an error
+	// response) carries them empty, otherwise it could not be marshalled at all.
+	pb.Sketch, pb.TSSketch = []byte{}, []byte{}
 	if r.Sketch != nil {
 		buf, err := r.Sketch.MarshalBinary()
 		if err != nil {
@@ -581,6 +584,9 @@ type MeasurementsSketchesResponse struct {
 
 func (r *MeasurementsSketchesResponse) MarshalBinary() ([]byte, error) {
 	var pb internal.MeasurementsSketchesResponse
+	// Sketch and TSSketch are required fields: a response without sketches (an error
+	// response) carries them empty, otherwise it could not be marshalled at all.
+	pb.Sketch, pb.TSSketch = []byte{}, []byte{}
 	if r.Sketch != nil {
 		buf, err := r.Sketch.MarshalBinary()
 		if err != nil {
